@@ -42,6 +42,7 @@ package opt
 //@ func (Cluster).GetStore
 //@   assumed
 //@   ensures result != nil ==> ufb("storeKnown", self, id) && allocated(result) && (result.meta != nil ==> 0 <= result.meta.State && result.meta.State <= 2)
+//@   ensures [the-cluster-s-store] result == ufptr("clusterStoreOf", core.StoreInfo, self, id)
 //@   modifies nothing
 //@ func (Cluster).GetRegionStores
 //@   assumed
